@@ -6,6 +6,8 @@ Import ListNotations.
 Open Scope string_scope.
 
 Definition ident := string.
+Definition text := list N.  (* code points *)
+Definition s2t (s : string) : text := map (fun c => N_of_ascii c) (list_ascii_of_string s).
 
 Inductive const :=
 | CNone | CTrue | CFalse | CEllipsis
